@@ -35,6 +35,12 @@ Probes == <<
   P({"C13"}, <<115,111,114,116,40,96,91,49,48,48,48,48,48,48,48,48,48,48,48,48,48,48,48,48,48,48,48,48,48,48,48,48,48,48,48,48,48,48,48,48,48,48,48,48,48,50,44,32,49,48,48,48,48,48,48,48,48,48,48,48,48,48,48,48,48,48,48,48,48,48,48,48,48,48,48,48,48,48,48,48,48,48,48,48,48,48,49,93,96,41,91,48,93>>, Big("100000000000000000000000000000000000001")),
   \* C16: every JSON value between backticks evaluates to that value -- also one nested deeper than encoding/json's limit
   P({"C16"}, <<108,101,110,103,116,104,40,96>> \o RepS(<<91>>, 10001) \o RepS(<<93>>, 10001) \o <<96,41>>, {JInt(1)}),
+  \* C08 / C04: a text whose ONLY fault is grammatical is a syntax error (no argument exists that could have a wrong type or be one too many)
+  P({"C08", "C04"}, <<109,97,112,40>>, {ErrS({"syntax"})}),
+  P({"C08", "C04"}, <<115,111,114,116,95,98,121,40,97,44,32,93>>, {ErrS({"syntax"})}),
+  P({"C08", "C04"}, <<97,98,115,40,38,41>>, {ErrS({"syntax"})}),
+  P({"C08", "C04"}, <<97,98,115,40,97,44,41>>, {ErrS({"syntax"})}),
+  P({"C08", "C04"}, <<108,101,110,103,116,104,40,97,44>>, {ErrS({"syntax"})}),
   \* C02: invalid-value only for negative or non-integral counts and offsets -- not for integral ones beyond 2^63
   P({"C02"}, <<115,112,108,105,116,40,39,97,44,98,39,44,32,39,44,39,44,32,96,57,50,50,51,51,55,50,48,51,54,56,53,52,55,55,53,56,48,56,96,41>>, {Arr(<<Str(<<97>>), Str(<<98>>)>>)}),
   P({"C02"}, <<102,105,110,100,95,102,105,114,115,116,40,39,97,98,99,39,44,32,39,98,39,44,32,96,45,49,101,51,48,96,41>>, {JInt(1)}),
@@ -50,5 +56,7 @@ Check == idx > 0 =>
       case == [p |-> Prop, kind |-> "search", doc |-> Doc, expr |-> pr.e, adm |-> pr.adm]
   IN /\ (Emit /\ Prop \in pr.props) => PrintT("CASE " \o ToJson(case))
      \* every probe is a text the specification accepts
-     /\ Named(Len(pr.e) > 15000 \/ \A o \in StaticAdmissibleText(pr.e) : o.ok, "ProbesAreWellFormed")
+     /\ Named(Len(pr.e) > 15000 \/ (\A o \in StaticAdmissibleText(pr.e) : o.ok) \/ pr.adm = {ErrS({"syntax"})}, "ProbesAreWellFormed")
+     \* the malformed calls are outside the grammar in the specification too
+     /\ Named(pr.adm # {ErrS({"syntax"})} \/ \A o \in StaticAdmissibleText(pr.e) : ~o.ok /\ "syntax" \in o.cs, "MalformedProbesAreMalformed")
 =============================================================================
